@@ -309,6 +309,9 @@ structure Sys where
   compaction MERGES them (the clause relied on: "the compacted row-set of a keyed table is sorted
   by key"; the merging heap itself is C12's generated model) -/
   keyed   : List Nat := []
+  /-- `some n`: the storage runs with a tiny `target_rowset_size`; row-sets with ≥ n rows are
+  never selected by a compaction pass -/
+  bigRows : Option Nat := none
   nextTid : Nat := 0
   ths     : List (Tid × Th) := []
   outs    : List (Tid × Cmd × Res) := []
@@ -382,7 +385,22 @@ def compactPlan? (k : K) (e : Nat) (t : Nat) : Option (Option (List Key × List 
     | some l => some (some (sel, l.map (fun x => x.2.2)))
     | none => none
 
+/-- `compact_table` with a small `target_rowset_size`: a row-set with `big` or more rows never
+fits the size budget and is left alone; the others are selected (the workloads keep their total
+size within the budget, so the hash order in which the code visits them does not matter) -/
+def compactPlanSub? (k : K) (e : Nat) (t : Nat) (big : Nat) : Option (Option (List Key × List Int)) :=
+  let small := (tableKeys (k.status e) t).filter (fun key =>
+    match lookupPool k.pool key with
+    | some rows => decide (rows.length < big)
+    | none => true)
+  let sel := sortKeys small
+  if sel.length ≤ 1 then some none
+  else match scan? k.pool (k.status e) sel with
+    | some l => some (some (sel, l.map (fun x => x.2.2)))
+    | none => none
+
 inductive Act where
+  | config (big : Nat)
   | cmdBegin (th : Tid) (c : Cmd)
   | bound (th : Tid)
   | pin (th : Tid)
@@ -716,7 +734,9 @@ def stepCpTable (s : Sys) (th : Tid) (tb : Nat) : Option Sys :=
 def stepCpLocked (s : Sys) (th : Tid) (tb : Nat) : Option Sys :=
     let t := getTh s th
     if t.cpCur != some tb || t.cpGot || (heldBy s tb).isSome then none
-    else (match compactPlan? s.k t.snapE tb with
+    else (match (match s.bigRows with
+                 | some big => compactPlanSub? s.k t.snapE tb big
+                 | none => compactPlan? s.k t.snapE tb) with
           | some plan =>
               -- a keyed table is compacted by a MERGE: the new row-set is sorted by key
               let plan' := if s.keyed.contains tb then plan.map (fun p => (p.1, sortInt p.2)) else plan
@@ -764,6 +784,7 @@ def stepCmdDone (s : Sys) (th : Tid) : Option Sys :=
 /-- One atomic segment. `none` = the segment is not enabled in this state (for a trace produced
 by the implementation: model and implementation disagree). -/
 def astep (s : Sys) : Act → Option Sys
+  | .config big => some { s with bigRows := some big }
   | .cmdBegin th c => stepCmdBegin s th c
   | .bound th => stepBound s th
   | .pin th => stepPin s th
